@@ -484,6 +484,17 @@ def run_shard(shard, ctx):
             if rng.random() < 0.2 and uri:
                 pos = rng.randrange(0, len(uri) + 1)
                 uri = uri[:pos] + rng.choice(["\x80", "\xff", "\xe9"]) + uri[pos:]  # a byte >= 0x80 somewhere in a (stager-looking) URI
+            elif rng.random() < 0.2:
+                # bytes that form a valid multi-byte UTF-8 sequence; the checksum is over the bytes of the request target: URIs
+                # whose BYTE sum is 92 (stagers) and URIs whose sum would be 92 only if the sequence counted as one character
+                seq = rng.choice(["\xc3\xa9", "\xe2\x82\xac", "\xc2\xa0", "\xc5\x81"])
+                as_char = seq.encode("latin-1").decode("utf-8")
+                count_as = seq if rng.random() < 0.5 else as_char
+                for _ in range(2000):
+                    tail = "".join(rng.choice(alnum) for _ in range(rng.randrange(2, 6)))
+                    if (sum(ord(c) for c in count_as + tail)) % 256 == 92:
+                        break
+                uri = "/" + (seq + tail if rng.random() < 0.5 else tail[:1] + seq + tail[1:])
             if rng.random() < 0.1 and uri:
                 uri = rng.choice(["\x01", "\x02", "\x1f\x01", "\x7f"]) + uri  # a control character in front of the slash
             wire_ok = uri is not None and uri != "" and not any(ch in uri for ch in " \t\n\r\x0b\x0c?#")
